@@ -170,6 +170,8 @@ type Result struct {
 	Fields     int   // structural items parsed (headers, size fields, string lengths)
 	// FailLevel is the container nesting level at which the first defect was met (0 = at top-level scalar/string).
 	FailLevel int
+	// FailOff is the absolute input offset at which the first defect was met.
+	FailOff int
 }
 
 // DepthLimit is the deepest container level the grammar accepts here.
@@ -185,30 +187,33 @@ func (r *Result) acq(n int64) {
 	}
 }
 
-func walk(b []byte, t int8, level int, r *Result) (int, int) {
+func (r *Result) fail(level, off, class int) (int, int) {
+	r.FailLevel = level
+	r.FailOff = off
+	return 0, class
+}
+
+// walk parses one value of type t at b; base is the absolute offset of b[0] in the input.
+func walk(b []byte, t int8, level int, base int, r *Result) (int, int) {
 	if n := FixedSize(t); n > 0 {
 		if len(b) < n {
-			r.FailLevel = level
-			return 0, TRUNCATED
+			return r.fail(level, base, TRUNCATED)
 		}
 		return n, OK
 	}
 	switch t {
 	case STRING:
 		if len(b) < 4 {
-			r.FailLevel = level
-			return 0, TRUNCATED
+			return r.fail(level, base, TRUNCATED)
 		}
 		r.Fields++
 		sz := int64(be32(b))
 		if sz >= 1<<31 {
-			r.FailLevel = level
-			return 0, NEGATIVE_SIZE
+			return r.fail(level, base, NEGATIVE_SIZE)
 		}
 		r.acq(sz)
 		if int64(len(b)) < 4+sz {
-			r.FailLevel = level
-			return 0, TRUNCATED
+			return r.fail(level, base+4, TRUNCATED)
 		}
 		return 4 + int(sz), OK
 	case STRUCT, MAP, SET, LIST:
@@ -217,20 +222,17 @@ func walk(b []byte, t int8, level int, r *Result) (int, int) {
 			r.MaxLevel = level
 		}
 		if level > DepthLimit {
-			r.FailLevel = level
-			return 0, DEPTH
+			return r.fail(level, base, DEPTH)
 		}
 	default:
-		r.FailLevel = level
-		return 0, UNKNOWN_TYPE
+		return r.fail(level, base, UNKNOWN_TYPE)
 	}
 	switch t {
 	case STRUCT:
 		i := 0
 		for {
 			if len(b) < i+1 {
-				r.FailLevel = level
-				return 0, TRUNCATED
+				return r.fail(level, base+i, TRUNCATED)
 			}
 			ft := int8(b[i])
 			i++
@@ -239,11 +241,10 @@ func walk(b []byte, t int8, level int, r *Result) (int, int) {
 				return i, OK
 			}
 			if len(b) < i+2 {
-				r.FailLevel = level
-				return 0, TRUNCATED
+				return r.fail(level, base+i, TRUNCATED)
 			}
 			i += 2
-			n, c := walk(b[i:], ft, level, r)
+			n, c := walk(b[i:], ft, level, base+i, r)
 			if c != OK {
 				return 0, c
 			}
@@ -251,33 +252,30 @@ func walk(b []byte, t int8, level int, r *Result) (int, int) {
 		}
 	case MAP:
 		if len(b) < 6 {
-			r.FailLevel = level
-			return 0, TRUNCATED
+			return r.fail(level, base, TRUNCATED)
 		}
 		r.Fields++
 		kt, vt, sz := int8(b[0]), int8(b[1]), int64(be32(b[2:]))
 		kf, vf := FixedSize(kt), FixedSize(vt)
 		if sz >= 1<<31 {
-			r.FailLevel = level
-			return 0, NEGATIVE_SIZE
+			return r.fail(level, base+2, NEGATIVE_SIZE)
 		}
 		if kf > 0 && vf > 0 {
 			tot := sz * int64(kf+vf)
 			r.acq(tot)
 			if int64(len(b)) < 6+tot {
-				r.FailLevel = level
-				return 0, TRUNCATED
+				return r.fail(level, base+6, TRUNCATED)
 			}
 			return 6 + int(tot), OK
 		}
 		i := 6
 		for j := int64(0); j < sz; j++ {
-			n, c := walk(b[i:], kt, level, r)
+			n, c := walk(b[i:], kt, level, base+i, r)
 			if c != OK {
 				return 0, c
 			}
 			i += n
-			n, c = walk(b[i:], vt, level, r)
+			n, c = walk(b[i:], vt, level, base+i, r)
 			if c != OK {
 				return 0, c
 			}
@@ -286,28 +284,25 @@ func walk(b []byte, t int8, level int, r *Result) (int, int) {
 		return i, OK
 	default: // SET, LIST
 		if len(b) < 5 {
-			r.FailLevel = level
-			return 0, TRUNCATED
+			return r.fail(level, base, TRUNCATED)
 		}
 		r.Fields++
 		et, sz := int8(b[0]), int64(be32(b[1:]))
 		ef := FixedSize(et)
 		if sz >= 1<<31 {
-			r.FailLevel = level
-			return 0, NEGATIVE_SIZE
+			return r.fail(level, base+1, NEGATIVE_SIZE)
 		}
 		if ef > 0 {
 			tot := sz * int64(ef)
 			r.acq(tot)
 			if int64(len(b)) < 5+tot {
-				r.FailLevel = level
-				return 0, TRUNCATED
+				return r.fail(level, base+5, TRUNCATED)
 			}
 			return 5 + int(tot), OK
 		}
 		i := 5
 		for j := int64(0); j < sz; j++ {
-			n, c := walk(b[i:], et, level, r)
+			n, c := walk(b[i:], et, level, base+i, r)
 			if c != OK {
 				return 0, c
 			}
@@ -320,7 +315,7 @@ func walk(b []byte, t int8, level int, r *Result) (int, int) {
 // Walk is a recursive-descent recogniser for one value of type t at the start of b.
 func Walk(b []byte, t int8) Result {
 	var r Result
-	r.N, r.Class = walk(b, t, 0, &r)
+	r.N, r.Class = walk(b, t, 0, 0, &r)
 	return r
 }
 
